@@ -4,6 +4,7 @@ import (
 	"bytes"
 	"encoding/json"
 	"fmt"
+	"io"
 	"math"
 	"strconv"
 	"strings"
@@ -116,7 +117,12 @@ func runC14(t *rapid.T) {
 		werr = qf.ToJSON(w)
 		pipe.CloseWithError(werr)
 	})
+	var doRead func(r io.Reader) qframe.QFrame
 	s.Go("reader", func() {
+		got = doRead(pipe)
+		pipe.CloseRead()
+	})
+	doRead = func(r io.Reader) qframe.QFrame {
 		order := make([]string, len(src.Names))
 		enums := map[string][]string{}
 		for i, n := range src.Names {
@@ -139,18 +145,29 @@ func runC14(t *rapid.T) {
 		if len(enums) > 0 {
 			opts = append(opts, newqf.Enums(enums))
 		}
-		got = qframe.ReadJSON(pipe, opts...)
-		pipe.CloseRead()
-	})
+		return qframe.ReadJSON(r, opts...)
+	}
 	ok := s.Run()
 	core.Steps(int(s.Steps))
+	chunks := pipe.Chunks
+	if pipe.ForeignUse() {
+		// the library did its I/O on a goroutine of its own: no schedule of
+		// ours can include it. Same round trip, same oracle, no scheduler.
+		core.Probe("library-goroutine-did-the-io:sequential-round-trip")
+		var buf bytes.Buffer
+		werr = qf.ToJSON(&buf)
+		w.all = buf.Bytes()
+		cr := &simio.ChunkReader{B: append([]byte{}, w.all...), N: tr.PipeCap}
+		got = doRead(cr)
+		chunks, ok = cr.Chunks, true
+	}
 	tr.Written = fmt.Sprintf("%q", w.all)
 	{
 		// ReadJSON's error text names whichever column Go's map iteration
 		// reached first (N6 in DESIGN.md): only its presence is an event.
 		o := obs.Of(got)
 		o.Err = ""
-		core.Event(w.all, fmt.Sprint(pipe.Chunks), s.Digest(), fmt.Sprint(o))
+		core.Event(w.all, fmt.Sprint(chunks), s.Digest(), fmt.Sprint(o))
 	}
 	if p := s.FirstPanic(); p != nil {
 		core.Violation(t, "C14:panic:"+p.Name, fmt.Sprintf("%s panicked: %v\n%s", p.Name, p.Panic, p.PanicStack), tr)
@@ -183,7 +200,7 @@ func runC14(t *rapid.T) {
 	if nontrivial {
 		core.Nontrivial(core.Hash64(w.all))
 		if len(w.all) < 160 {
-			core.Sample(map[string]interface{}{"written": string(w.all), "chunks": pipe.Chunks})
+			core.Sample(map[string]interface{}{"written": string(w.all), "chunks": chunks})
 		}
 	}
 	if werr != nil && !strings.Contains(werr.Error(), "closed pipe") {
